@@ -165,6 +165,7 @@ fn base_name(kind: &Kind) -> String {
 
 struct Stats {
     interleavings: u64,
+    cross_kind: u64,
     calls: u64,
     thread_rounds: u64,
     process_lines: u64,
@@ -212,6 +213,59 @@ fn check_interleavings(ctx: &Ctx, kinds: &[Kind], st: &mut Stats) {
                                 json!({"kind": "interleaving", "sketcher": kind.name, "n": n, "len": len, "same_input": same_input, "order": order}),
                             );
                         }
+                    }
+                }
+            }
+        }
+    }
+}
+
+/// two instances of DIFFERENT kinds (same size) with their calls interleaved in one thread: state that the crate keeps
+/// outside the instances (a static or thread-local table keyed too coarsely - by m only, by type only) shows as a result
+/// that differs from the solo run
+fn check_cross_kind(ctx: &Ctx, kinds: &[Kind], st: &mut Stats) {
+    let len = 4usize;
+    let orders = interleavings(2, len);
+    let size_of = |k: &Kind| k.name.split(" m=").nth(1).map(|s| s.split(' ').next().unwrap_or("").to_string()).unwrap_or_default();
+    let scripts: Vec<Vec<Op>> = vec![script(0)[..len - 1].to_vec(), script(0)[..len - 1].to_vec()];
+    let solos: Vec<Obs> = kinds.iter().map(|k| solo(k, &scripts[0])).collect();
+    for (ia, ka) in kinds.iter().enumerate() {
+        for (ib, kb) in kinds.iter().enumerate() {
+            if ia == ib || size_of(ka) != size_of(kb) {
+                continue;
+            }
+            let mut reported = false;
+            for order in &orders {
+                st.interleavings += 1;
+                st.cross_kind += 1;
+                st.calls += order.len() as u64;
+                let pair = [ka, kb];
+                let mut insts: Vec<Option<Box<dyn Inst>>> = vec![None, None];
+                let mut pos = [0usize; 2];
+                let mut err: [Option<String>; 2] = [None, None];
+                for &i in order {
+                    if pos[i] == 0 {
+                        insts[i] = Some((pair[i].build)());
+                    } else if err[i].is_none() {
+                        if let Err(e) = apply_checked(insts[i].as_mut().unwrap(), &scripts[i][pos[i] - 1]) {
+                            err[i] = Some(e);
+                        }
+                    }
+                    pos[i] += 1;
+                }
+                for i in 0..2 {
+                    let obs: Obs = match &err[i] {
+                        Some(e) => Err(e.clone()),
+                        None => insts[i].as_mut().unwrap().observe(),
+                    };
+                    let want = if i == 0 { &solos[ia] } else { &solos[ib] };
+                    if &obs != want && !reported {
+                        reported = true;
+                        ctx.violation(
+                            &format!("cross-kind:{}", base_name(pair[i])),
+                            &format!("{}: with the calls of this instance and of a {} interleaved in one thread in the order {:?}, it gives a result different from its solo run", pair[i].name, pair[1 - i].name, order),
+                            json!({"kind": "cross-kind", "sketcher": pair[i].name, "other": pair[1 - i].name, "order": order}),
+                        );
                     }
                 }
             }
@@ -432,8 +486,9 @@ fn check_processes(ctx: &Ctx, st: &mut Stats) {
 pub fn run(ctx: &Ctx) -> i32 {
     crate::common::install_hang_watchdog(ctx, "exploration", 20);
     let kinds = catalogue(&ctx.pick(vec![2usize, 16], vec![1, 2, 5, 16, 64]), false);
-    let mut st = Stats { interleavings: 0, calls: 0, thread_rounds: 0, process_lines: 0, distinct_obs: Default::default() };
+    let mut st = Stats { interleavings: 0, cross_kind: 0, calls: 0, thread_rounds: 0, process_lines: 0, distinct_obs: Default::default() };
     check_interleavings(ctx, &kinds, &mut st);
+    check_cross_kind(ctx, &kinds, &mut st);
     check_large_hashmaps(ctx, &mut st);
     check_threads(ctx, &kinds, &mut st);
     check_tied_slices(ctx, &mut st);
@@ -461,6 +516,8 @@ pub fn run(ctx: &Ctx) -> i32 {
         "exhaustive_scope": "interleavings at call granularity are enumerated completely; threads are sampled; there is no scheduling point inside a sketch call for a controlled scheduler to use (the crate has no locks/atomics)",
         "sketcher_kinds": kinds.len(),
         "interleavings": st.interleavings,
+        "cross_kind_interleavings": st.cross_kind,
+        "cross_kind_rule": "every ordered pair of DIFFERENT kinds of the same size (incl. SetSketchers that differ only in the rate a): all 70 interleavings of their two 4-step call sequences in one thread, each instance compared with its solo run",
         "calls": st.calls,
         "thread_rounds": st.thread_rounds,
         "process_digest_lines": st.process_lines,
